@@ -4,6 +4,7 @@ package actionlint
 
 import (
 	"os"
+	"strings"
 	"time"
 
 	"gopkg.in/yaml.v3"
@@ -359,4 +360,53 @@ func HarnessC10FindProject() {
 		got = p.RootDir()
 	}
 	verifCheckf(got == want, "file-assigned-to-the-wrong-repository", got+" <> "+want)
+}
+
+// HarnessC10SameActionPath: two repositories that each have a well-formed
+// local action at the same relative path (./act) with different outputs; each
+// repository's workflow reads its own action's output and the other one's.
+// Linted together (either order, goroutines at once or as wholes in reverse),
+// each file gets the diagnostics it gets alone: the action of its own
+// repository decides.
+func HarnessC10SameActionPath() {
+	action := func(out string) string {
+		return "name: act\ndescription: d\noutputs:\n  " + out + ":\n    description: d\nruns:\n  using: node20\n  main: index.js\n"
+	}
+	wf := "on: push\njobs:\n  j:\n    runs-on: ubuntu-latest\n    steps:\n      - id: a\n        uses: ./act\n      - run: echo ${{ steps.a.outputs.r_out }} ${{ steps.a.outputs.s_out }}\n"
+	paths := []string{"/r/.github/workflows/a.yml", "/s/.github/workflows/b.yml"}
+	if verifIsNative() {
+		verifC10NativeSameActionPath(wf)
+		return
+	}
+	verifC10Files = map[string]string{paths[0]: wf, paths[1]: wf, "/r/act/action.yml": action("r_out"), "/s/act/action.yml": action("s_out")}
+	verifC10Tree = map[string]int{"/r/act/index.js": 2, "/s/act/index.js": 2}
+	verifC10Cfg = map[string]*Config{}
+	verifSetCwd("/")
+	verifOverride("os.ReadFile", verifC10ReadFile)
+	verifOverride("os.Stat", verifC10StatTree)
+	verifOverride("findProject", verifC10FindProject)
+	verifOverride("loadRepoConfig", verifC10RepoConfig)
+	single := make([]string, len(paths))
+	for k, p := range paths {
+		l := verifLinter("", "", "")
+		errs, err := l.LintFile(p, nil)
+		verifCheck(err == nil, "lint-failed")
+		single[k] = verifC10Digest(errs, p)
+		verifCheckf(len(errs) == 1, "each-file-has-one-undefined-output", verifErrTextConc(errs))
+		// the output that is not defined is the one of the other repository's action
+		other := []string{"\"s_out\"", "\"r_out\""}[k]
+		verifCheckf(len(errs) == 1 && strings.Contains(errs[0].Message, "property "+other), "file-checked-against-another-repository's-action", verifErrTextConc(errs))
+	}
+	ord := [][]int{{0, 1}, {1, 0}}[verifChoose("order", 2)]
+	l := verifLinter("", "", "")
+	if verifChoose("goroutines", 2) == 1 {
+		verifGoOrder([]int{1, 0})
+	}
+	errs, err := l.LintFiles([]string{paths[ord[0]], paths[ord[1]]}, nil)
+	verifGoOrder(nil)
+	verifCheck(err == nil, "lint-failed")
+	verifReach("linted")
+	for k, p := range paths {
+		verifCheckf(verifC10Digest(errs, p) == single[k], "file-linted-together-differs-from-file-linted-alone", p+": "+verifC10Digest(errs, p)+" <> "+single[k])
+	}
 }
